@@ -1,5 +1,6 @@
 import PelGen.GenPeltool
 import PelProofs.TiePeltool
+import PelProofs.TieDispatch
 import PelProps.C01
 /-
   Source tie for C01 (stream `peltool`): `parseHeader` and `getSectionName` of peltool.py, regenerated from the source text
@@ -39,5 +40,96 @@ theorem frame_section (gn : Tables → Nat → Text) (hn : Gen.getSectionName? =
 theorem name_of_id (gn : Tables → Nat → Text) (hn : Gen.getSectionName? = some gn) (T : Tables) (id : Nat) :
     gn T id = (lookupT T.sectionNames [(id / 256) % 256, id % 256]).getD (s "Unknown") := by
   rw [getSectionName gn hn]; rfl
+
+/-! ### stream `dispatch` (harness/trans_dispatch.py, PelGen/GenDispatch.lean): `sectionFun`, the `generate*` wrappers and the section
+    loop of `parsePEL`, regenerated from the source text, are the model's `decodeSection` / `decodeSections` (PelModel/Pel.lean).
+
+    A wrapper is translated AS `sectionFun` CALLS IT (the parameters are bound by position to what the call passes); its value is the
+    one member it stores in the fresh dictionary, as the pair (name, rendered section): `namedBy T h rd` (PelModel/TransDispatch.lean).
+    The section ids are the VALUES of the `SectionID` enumeration read from pel_types.py. -/
+
+open Pel.TieAux in
+/-- `generateSRC`: `SRC(stream, <the five header fields in order>, creatorID).toJSON(config)` stored under `getSectionName(sectionID)` -/
+theorem generateSRC (g : Env → Text → SecHdr → Rd (Text × J)) (hg : Gen.generateSRC? = some g) :
+    g = fun env creator h => namedBy env.T h (Prod.fst <$> decodeSRC env.T env.src h creator env.allowPlugins) := by
+  cases hg <;> funext env creator h <;> first
+  | with_reducible rfl
+  | (simp only [namedBy]; tie_cases)
+
+/-- `generateEH`: `ExtendedUserHeader(…, creatorID).toJSON()` -/
+theorem generateEH (g : Env → Text → SecHdr → Rd (Text × J)) (hg : Gen.generateEH? = some g) :
+    g = fun env creator h => namedBy env.T h (decodeEH env.T h creator) := by
+  cases hg <;> funext env creator h <;> first
+  | with_reducible rfl
+  | (simp only [namedBy]; tie_cases)
+
+/-- `generateMT`: `FailingMTMS(…, creatorID).toJSON()` -/
+theorem generateMT (g : Env → Text → SecHdr → Rd (Text × J)) (hg : Gen.generateMT? = some g) :
+    g = fun env creator h => namedBy env.T h (decodeMT env.T h creator) := by
+  cases hg <;> funext env creator h <;> first
+  | with_reducible rfl
+  | (simp only [namedBy]; tie_cases)
+
+/-- `generateED`: `ExtUserData(…).toJSON(config)` (no creator id: the section carries its own) -/
+theorem generateED (g : Env → Text → SecHdr → Rd (Text × J)) (hg : Gen.generateED? = some g) :
+    g = fun env _ h => namedBy env.T h (decodeED env.T env.ud env.allowPlugins h) := by
+  cases hg <;> funext env creator h <;> first
+  | with_reducible rfl
+  | (simp only [namedBy]; tie_cases)
+
+/-- `generateUD`: `UserData(…, creatorID).toJSON(config)` -/
+theorem generateUD (g : Env → Text → SecHdr → Rd (Text × J)) (hg : Gen.generateUD? = some g) :
+    g = fun env creator h => namedBy env.T h (decodeUD env.T env.ud env.allowPlugins h creator) := by
+  cases hg <;> funext env creator h <;> first
+  | with_reducible rfl
+  | (simp only [namedBy]; tie_cases)
+
+/-- `generateIP`: `ImpactedPartition(…, creatorID).toJSON()` -/
+theorem generateIP (g : Env → Text → SecHdr → Rd (Text × J)) (hg : Gen.generateIP? = some g) :
+    g = fun env creator h => namedBy env.T h (decodeLP env.T h creator) := by
+  cases hg <;> funext env creator h <;> first
+  | with_reducible rfl
+  | (simp only [namedBy]; tie_cases)
+
+/-- `generateDefault`: `Default(…).toJSON()` -/
+theorem generateDefault (g : Env → Text → SecHdr → Rd (Text × J)) (hg : Gen.generateDefault? = some g) :
+    g = fun env _ h => namedBy env.T h (decodeDefault h) := by
+  cases hg <;> funext env creator h <;> first
+  | with_reducible rfl
+  | (simp only [namedBy]; tie_cases)
+
+/-- `sectionFun`: which section id goes to which decoder (`decodeSection`), the result stored under the name of the id -/
+theorem sectionFun (g : Env → Text → SecHdr → Rd (Text × J)) (hg : Gen.sectionFun? = some g) :
+    g = fun env creator h => namedBy env.T h (Prod.fst <$> decodeSection env creator h) := by
+  cases hg <;> funext env creator h <;> first
+  | with_reducible rfl
+  | (simp only [namedBy, decodeSection, sidPS, sidSS, sidEH, sidMT, sidED, sidUD, sidLP]; tie_cases)
+
+/-- the loop `for _ in range(2, ph.sectionCount): parseHeader; sectionFun; append` of `parsePEL` is the model's recursive
+    `decodeSections`, called the way `parsePELRd` calls it -/
+theorem sectionLoop (g : Env → PHInfo → Rd (List (Text × J))) (hg : Gen.sectionLoop? = some g) :
+    g = fun env ph => decodeSections env ph.creator (ph.sectionCount - 2) := by
+  cases hg <;> funext env ph <;> rw [TieAux.decodeSections_eq_collect, TieAux.decodeOne_eq] <;> first
+  | with_reducible rfl
+  | (congr 1
+     first
+     | with_reducible rfl
+     | (congr 1; funext h
+        simp only [namedBy, decodeSection, sidPS, sidSS, sidEH, sidMT, sidED, sidUD, sidLP]; tie_cases))
+
+/-- header + translated `sectionFun` = the model's `decodeOne` (the function C01's framing theorem is about) -/
+theorem sectionFun_decodeOne (g : Env → Text → SecHdr → Rd (Text × J)) (hg : Gen.sectionFun? = some g) (env : Env) (creator : Text) :
+    (Pel.parseHeader >>= fun h => g env creator h) = decodeOne env creator := by
+  rw [sectionFun g hg, TieAux.decodeOne_eq]
+
+/-- C01 ★`frame_section` for the dispatch of the source text: a section header followed by the translated `sectionFun` decodes
+    exactly the bytes the header delimits and yields the rendered section under the translated name -/
+theorem frame_section_dispatch (g : Env → Text → SecHdr → Rd (Text × J)) (hg : Gen.sectionFun? = some g)
+    (gn : Tables → Nat → Text) (hn : Gen.getSectionName? = some gn)
+    (env : Env) (creator : Text) (sec : ASection) (hs : sec.WF) (j : J)
+    (hr : renderSection env creator sec = .ok j) (rest : Bytes) :
+    (Pel.parseHeader >>= fun h => g env creator h) (sec.enc ++ rest) = .ok ((gn env.T sec.body.id, j), rest) := by
+  rw [sectionFun_decodeOne g hg]
+  exact frame_section gn hn env creator sec hs j hr rest
 
 end Pel.Tie
